@@ -1,5 +1,10 @@
 (* Differentiate.v — the differentiate operator on semantic circuits and its correctness
-   against an abstract partial-derivative operator. *)
+   against an abstract partial-derivative operator Dv whose rules (additivity, scaling, independent factor)
+   are only assumed on a class DF of "differentiable" scalar functions closed under extensionality,
+   constants, sums and products; the circuit's input functions are required to be in DF (inputs_DF).
+   differentiate_correct_total / differentiate_outputs_total: the special case DF := fun _ => True
+   (rules assumed for all functions, no condition on the inputs).
+   DiffReal.v instantiates Dv / DF with the real partial derivative / real differentiability. *)
 From Coq Require Import List Lia Ring Ring_theory Bool Arith Sorted.
 Import ListNotations.
 From CK Require Import Base Circ.
@@ -41,17 +46,30 @@ Notation kronn := (kronn R rmul).
 Notation prodl := (prodl R rI rmul).
 Notation prodf := (prodf R rI rmul D).
 
+(* ---------- the class of differentiable scalar functions ---------- *)
+(* The rules of the derivative operator below are only assumed on a class DF of "differentiable"
+   functions closed under extensionality, constants, sums and products (no real derivative is additive
+   on ALL functions).  DF := fun _ => True gives back the total rules (section DifferentiateTotal);
+   DiffReal.v instantiates DF with real differentiability along every coordinate. *)
+Variable DF : (asg -> R) -> Prop.
+Hypothesis DF_ext   : forall f g, (forall y, f y = g y) -> DF f -> DF g.
+Hypothesis DF_const : forall c, DF (fun _ => c).
+Hypothesis DF_add   : forall f g, DF f -> DF g -> DF (fun y => f y + g y).
+Hypothesis DF_mul   : forall f g, DF f -> DF g -> DF (fun y => f y * g y).
+
 (* ---------- the abstract partial-derivative operator ---------- *)
 Variable Dv : nat -> (asg -> R) -> (asg -> R).
 Hypothesis Dv_ext  : forall v f g, (forall y, f y = g y) -> forall y, Dv v f y = Dv v g y.
-Hypothesis Dv_add  : forall v f g y, Dv v (fun y => f y + g y) y = Dv v f y + Dv v g y.
-Hypothesis Dv_scal : forall v c f y, Dv v (fun y => c * f y) y = c * Dv v f y.
-Hypothesis Dv_indep_mul : forall v S g f, dep_on S g -> ~ In v S ->
+Hypothesis Dv_add  : forall v f g y, DF f -> DF g -> Dv v (fun y => f y + g y) y = Dv v f y + Dv v g y.
+Hypothesis Dv_scal : forall v c f y, DF f -> Dv v (fun y => c * f y) y = c * Dv v f y.
+Hypothesis Dv_indep_mul : forall v S g f, dep_on S g -> ~ In v S -> DF f ->
   forall y, Dv v (fun y => g y * f y) y = g y * Dv v f y.
 Hypothesis Dv_indep : forall v S f, dep_on S f -> ~ In v S -> forall y, Dv v f y = 0.
 
 Lemma Dv_const v c y : Dv v (fun _ => c) y = 0.
 Proof. apply (Dv_indep v [] (fun _ => c)); [intros a b _; reflexivity | intros []]. Qed.
+Lemma DF_scal c f : DF f -> DF (fun y => c * f y).
+Proof. intros H. apply (DF_mul (fun _ => c) f); [apply DF_const | exact H]. Qed.
 
 (* ---------- vector-valued differentiation ---------- *)
 Definition DV (v : nat) (F : asg -> vec) (L : nat) (y : asg) : vec :=
@@ -73,16 +91,49 @@ Proof. intros H. unfold DV. apply map_ext. intros k. apply Dv_ext. intros y'. re
 Lemma tl_DV v F L y : tl (DV v F L y) = DV v (fun y => tl (F y)) (pred L) y.
 Proof. unfold DV. destruct L as [|L]; [reflexivity|]. simpl.
   rewrite <- seq_shift, map_map. apply map_ext. intros k. apply Dv_ext. intros y'. symmetry. apply nth_tl. Qed.
-Lemma Dv_dot v w : forall F L y, (forall y, length (F y) = L) ->
+Lemma DF_tl (F : asg -> vec) : (forall k, DF (fun y => nth k (F y) 0)) -> forall k, DF (fun y => nth k (tl (F y)) 0).
+Proof. intros HF k. apply (DF_ext (fun y => nth (S k) (F y) 0)); [intros; symmetry; apply nth_tl | apply HF]. Qed.
+Lemma DF_dot w : forall F, (forall k, DF (fun y => nth k (F y) 0)) -> DF (fun y => dot w (F y)).
+Proof.
+  induction w as [|a w IH]; intros F HF.
+  - simpl. apply DF_const.
+  - apply (DF_ext (fun y => a * nth 0 (F y) 0 + dot w (tl (F y)))); [intros; symmetry; apply (dot_cons R rO rI radd rmul Rth)|].
+    apply DF_add; [apply DF_scal, HF | apply IH, DF_tl, HF].
+Qed.
+Lemma Dv_dot v w : forall F L y, (forall k, DF (fun y => nth k (F y) 0)) -> (forall y, length (F y) = L) ->
   Dv v (fun y => dot w (F y)) y = dot w (DV v F L y).
 Proof.
-  induction w as [|a w IH]; intros F L y HL.
+  induction w as [|a w IH]; intros F L y HF HL.
   - simpl. apply Dv_const.
   - rewrite (dot_cons R rO rI radd rmul Rth).
     rewrite (Dv_ext v _ (fun y => a * nth 0 (F y) 0 + dot w (tl (F y)))) by (intros; apply (dot_cons R rO rI radd rmul Rth)).
-    rewrite Dv_add, Dv_scal.
-    rewrite (IH (fun y => tl (F y)) (pred L)) by (intros y0; destruct (F y0) eqn:E; specialize (HL y0); rewrite E in HL; simpl in *; subst; reflexivity).
+    rewrite Dv_add; [| apply DF_scal, HF | apply DF_dot, DF_tl, HF].
+    rewrite Dv_scal by apply HF.
+    assert (HL' : forall y0, length (tl (F y0)) = pred L)
+      by (intros y0; destruct (F y0) eqn:E; specialize (HL y0); rewrite E in HL; simpl in *; subst; reflexivity).
+    rewrite (IH (fun y => tl (F y)) (pred L) y (DF_tl F HF) HL').
     rewrite tl_DV. rewrite nth_DV_all by exact HL. reflexivity.
+Qed.
+Lemma DF_app (F G : asg -> vec) L1 : (forall y, length (F y) = L1) ->
+  (forall k, DF (fun y => nth k (F y) 0)) -> (forall k, DF (fun y => nth k (G y) 0)) ->
+  forall k, DF (fun y => nth k (F y ++ G y) 0).
+Proof.
+  intros HL HF HG k. destruct (Nat.lt_ge_cases k L1) as [H|H].
+  - apply (DF_ext (fun y => nth k (F y) 0)); [|apply HF]. intros y. symmetry. apply app_nth1. rewrite HL. exact H.
+  - apply (DF_ext (fun y => nth (k - L1) (G y) 0)); [|apply HG]. intros y. rewrite app_nth2 by (rewrite HL; exact H).
+    rewrite HL. reflexivity.
+Qed.
+Lemma DF_concat (G : asg -> nat -> vec) (u : nat -> nat) ins :
+  (forall j y, In j ins -> length (G y j) = u j) ->
+  (forall j, In j ins -> forall k, DF (fun y => nth k (G y j) 0)) ->
+  forall k, DF (fun y => nth k (concat (map (G y) ins)) 0).
+Proof.
+  induction ins as [|j ins IH]; intros HL HG k; simpl.
+  - apply (DF_ext (fun _ => 0)); [intros _; destruct k; reflexivity | apply DF_const].
+  - apply (DF_app (fun y => G y j) (fun y => concat (map (G y) ins)) (u j)).
+    + intros y. apply HL. simpl; auto.
+    + apply HG. simpl; auto.
+    + apply IH; intros; [apply HL | apply HG]; simpl; auto.
 Qed.
 Lemma DV_app v F G L1 L2 y : (forall y, length (F y) = L1) ->
   DV v (fun y => F y ++ G y) (L1 + L2) y = DV v F L1 y ++ DV v G L2 y.
@@ -178,21 +229,32 @@ Fixpoint dprodf (v : nat) (fs : list (list nat * (asg -> R))) (y : asg) : option
               else option_map (rmul (snd p y)) (dprodf v r y)
   end.
 Definition oget (o : option R) : R := match o with Some r => r | None => 0 end.
-Lemma Dv_prodf v fs : (forall p, In p fs -> dep_on (fst p) (snd p)) -> pairwise_disjoint (map fst fs) ->
+Lemma DF_prodf fs : (forall p, In p fs -> DF (snd p)) -> DF (prodf fs).
+Proof.
+  induction fs as [|p fs IH]; intros H.
+  - apply (DF_ext (fun _ => 1)); [intros; reflexivity | apply DF_const].
+  - apply (DF_ext (fun y => snd p y * prodf fs y)); [intros; reflexivity|].
+    apply DF_mul; [apply H; simpl; auto | apply IH; intros; apply H; simpl; auto].
+Qed.
+Lemma Dv_prodf v fs : (forall p, In p fs -> dep_on (fst p) (snd p)) -> (forall p, In p fs -> DF (snd p)) ->
+  pairwise_disjoint (map fst fs) ->
   forall y, Dv v (prodf fs) y = oget (dprodf v fs y).
 Proof.
-  induction fs as [|[S f] fs IH]; intros Hd Hp y.
+  induction fs as [|[S f] fs IH]; intros Hd HDF Hp y.
   - simpl. apply (Dv_indep v []); [intros a b _; reflexivity | intros []].
   - simpl in Hp. destruct Hp as [Hp1 Hp2].
     assert (Hr : dep_on (concat (map fst fs)) (prodf fs)) by (apply prodf_dep; intros; apply Hd; simpl; auto).
     assert (Hf : dep_on S f) by (apply (Hd (S, f)); simpl; auto).
+    assert (HDf : DF f) by (apply (HDF (S, f)); simpl; auto).
+    assert (HDr : DF (prodf fs)) by (apply DF_prodf; intros; apply HDF; simpl; auto).
     simpl dprodf. destruct (mem v S) eqn:Ev.
     + rewrite (Dv_ext v _ (fun y => prodf fs y * f y)) by (intros; unfold Circ.prodf; simpl; ring).
-      rewrite (Dv_indep_mul v _ _ _ Hr); [simpl; ring|].
+      rewrite (Dv_indep_mul v _ _ _ Hr); [simpl; ring | | exact HDf].
       apply mem_In in Ev. intros Hc. exact (disjoint_concat S _ Hp1 v Ev Hc).
     + rewrite (Dv_ext v _ (fun y => f y * prodf fs y)) by (intros; reflexivity).
-      rewrite (Dv_indep_mul v S _ _ Hf) by (intros Hc; apply mem_In in Hc; congruence).
-      rewrite IH by (auto; intros; apply Hd; simpl; auto). destruct (dprodf v fs y); simpl; ring.
+      rewrite (Dv_indep_mul v S _ _ Hf); [| intros Hc; apply mem_In in Hc; congruence | exact HDr].
+      rewrite IH; [| intros; apply Hd; simpl; auto | intros; apply HDF; simpl; auto | exact Hp2].
+      destruct (dprodf v fs y); simpl; ring.
 Qed.
 
 (* ---------- the operator ---------- *)
@@ -321,6 +383,11 @@ Lemma fsd_dep E sc ins ds :
   forall p, In p (fsd E sc ins ds) -> dep_on (fst p) (snd p).
 Proof. intros H p Hp. unfold fsd in Hp. apply in_map_iff in Hp. destruct Hp as [[j d] [<- Hjd]]. simpl.
   apply H. apply in_combine_l in Hjd. exact Hjd. Qed.
+Lemma fsd_DF E sc ins ds :
+  (forall j, In j ins -> forall k, DF (fun y => nth k (nth j (E y) []) 0)) ->
+  forall p, In p (fsd E sc ins ds) -> DF (snd p).
+Proof. intros H p Hp. unfold fsd in Hp. apply in_map_iff in Hp. destruct Hp as [[j d] [<- Hjd]]. simpl.
+  apply H. apply in_combine_l in Hjd. exact Hjd. Qed.
 Lemma prod_dep E sc ins ds (f : asg -> R) : length ds = length ins ->
   (forall j, In j ins -> forall k, dep_on (nth j sc []) (fun y => nth k (nth j (E y) []) 0)) ->
   (forall y, f y = prodf (fsd E sc ins ds) y) ->
@@ -396,6 +463,44 @@ Proof.
            ++ intros y. rewrite (ev_eq R rO radd rmul D). simpl. apply kron_entry; [exact Hne|]. intros j Hj. apply IAj, Hj.
 Qed.
 
+
+(* ---------- every unit of every node of an ok circuit with DF inputs is DF ---------- *)
+Definition inputs_DF (c : circuit) : Prop :=
+  forall a, In (NIn a) c -> forall k, DF (fun y => nth k (ifun R D a y) 0).
+Lemma inputs_DF_pre pre n : inputs_DF (pre ++ [n]) -> inputs_DF pre.
+Proof. intros H a Ha. apply H. apply in_or_app. left. exact Ha. Qed.
+Definition ADF (pre : circuit) : Prop :=
+  forall i, i < length pre -> forall k, DF (fun y => nth k (nth i (eval pre y) []) 0).
+Theorem ok_ADF pre : ok pre -> inputs_DF pre -> ADF pre.
+Proof.
+  induction 1 as [|pre n Hok IH Hn]; intros HI i Hi k.
+  - simpl in Hi. lia.
+  - pose proof (ok_AB pre Hok) as HAB.
+    specialize (IH (inputs_DF_pre pre n HI)).
+    rewrite app_length in Hi. simpl in Hi.
+    assert (Hcase : i < length pre \/ i = length pre) by lia. destruct Hcase as [Hlt | ->].
+    + apply (DF_ext (fun y => nth k (nth i (eval pre y) []) 0));
+        [intros y; rewrite (ev_lt R rO radd rmul D) by exact Hlt; reflexivity | apply IH, Hlt].
+    + set (sc := scopes pre) in *. set (us := units pre) in *.
+      destruct n as [inp0 | W ins | ins | ins]; simpl in Hn.
+      * apply (DF_ext (fun y => nth k (ifun R D inp0 y) 0)); [intros y; rewrite (ev_eq R rO radd rmul D); reflexivity |].
+        apply HI. apply in_or_app. right. simpl; auto.
+      * destruct Hn as [Hne [Hpos Hsm]].
+        apply (DF_ext (fun y => dot (nth k W []) (concat (map (get (eval pre y)) ins)))).
+        { intros y. rewrite (ev_eq R rO radd rmul D). simpl. rewrite (nth_map_dot R rO radd rmul). reflexivity. }
+        apply DF_dot. apply (DF_concat (fun y j => get (eval pre y) j) (fun j => nth j us 0%nat)).
+        -- intros j y Hj. unfold Circ.get. apply (HAB j (Hpos j Hj)).
+        -- intros j Hj k'. unfold Circ.get. apply IH, Hpos, Hj.
+      * destruct Hn as [Hne [Hpos [Hun Hdj]]].
+        apply (DF_ext (prodf (fsd (eval pre) sc ins (repeat k (length ins))))).
+        { intros y. rewrite (ev_eq R rO radd rmul D). simpl. symmetry. apply had_entry. exact Hne. }
+        apply DF_prodf, fsd_DF. intros j Hj. apply IH, Hpos, Hj.
+      * destruct Hn as [Hne [Hpos Hdj]].
+        apply (DF_ext (prodf (fsd (eval pre) sc ins (kdigs (map (fun j => nth j us 0%nat) ins) k)))).
+        { intros y. rewrite (ev_eq R rO radd rmul D). simpl. symmetry. apply kron_entry; [exact Hne|].
+          intros j Hj. apply (HAB j (Hpos j Hj)). }
+        apply DF_prodf, fsd_DF. intros j Hj. apply IH, Hpos, Hj.
+Qed.
 
 (* ---------- index arithmetic and closedness of blocks ---------- *)
 Lemma didx_lt m N j t : j < N -> t < m -> didx m j t < N * (m + 1).
@@ -481,12 +586,14 @@ Proof.
 Qed.
 Lemma Dv_fsd m v sc t E y valsD ins ds : length ds = length ins ->
   (forall j, In j ins -> forall k, dep_on (nth j sc []) (fun y => nth k (nth j (E y) []) 0)) ->
+  (forall j, In j ins -> forall k, DF (fun y => nth k (nth j (E y) []) 0)) ->
   pairwise_disjoint (map (fun j => nth j sc []) ins) ->
   (forall j, In j ins -> nth (cidx m j) valsD [] = nth j (E y) []) ->
   (forall j, In j ins -> forall d, nth d (nth (didx m j t) valsD []) 0 = Dv v (fun y' => nth d (nth j (E y') []) 0) y) ->
   Dv v (prodf (fsd E sc ins ds)) y = oget (option_map (fun l => entryp (map (get valsD) l) ds) (dins m v sc t ins)).
 Proof.
-  intros HL Hdep Hdj Hc Hd. rewrite Dv_prodf; [| apply fsd_dep; exact Hdep | rewrite fsd_fst by exact HL; exact Hdj].
+  intros HL Hdep HDF Hdj Hc Hd.
+  rewrite Dv_prodf; [| apply fsd_dep; exact Hdep | apply fsd_DF; exact HDF | rewrite fsd_fst by exact HL; exact Hdj].
   rewrite (dins_entry m v sc t E y valsD ins Hc Hd ds HL). reflexivity.
 Qed.
 
@@ -504,10 +611,12 @@ Lemma in_map_eq (f g : nat -> nat) l l' c : map f l = map g l' -> (forall j, In 
 Proof. intros E H x Hx. assert (Hin : In (f x) (map g l')) by (rewrite <- E; apply in_map; exact Hx).
   apply in_map_iff in Hin. destruct Hin as [j [<- Hj]]. apply H, Hj. Qed.
 
-Theorem differentiate_inv vars pre : ok pre -> CD vars pre.
+Theorem differentiate_inv vars pre : ok pre -> inputs_DF pre -> CD vars pre.
 Proof.
-  induction 1 as [|pre n Hok IH Hn]; intros i Hi; [simpl in Hi; lia|].
+  induction 1 as [|pre n Hok IH Hn]; intros HI i Hi; [simpl in Hi; lia|].
+  specialize (IH (inputs_DF_pre pre n HI)).
   pose proof (ok_AB pre Hok) as HAB.
+  pose proof (ok_ADF pre Hok (inputs_DF_pre pre n HI)) as HF.
   pose proof (ok_AB (pre ++ [n]) (ok_snoc R rO D pre n Hok Hn)) as HAB'.
   rewrite differentiate_snoc by assumption.
   set (m := length vars) in *.
@@ -572,8 +681,10 @@ Proof.
         rewrite nth_DV_all by (intros; apply map_length).
         rewrite (Dv_ext v _ (fun y' => dot (nth k W []) (concat (map (get (eval pre y')) ins))))
           by (intros y'; apply (nth_map_dot R rO radd rmul)).
-        rewrite (Dv_dot v _ _ (sumu (fun j => nth j us 0%nat) ins))
-          by (intros y'; apply length_concat_sumu; intros j Hj; unfold Circ.get; apply HA, Hpos, Hj).
+        rewrite (Dv_dot v _ _ (sumu (fun j => nth j us 0%nat) ins));
+          [| apply (DF_concat (fun y' j => get (eval pre y') j) (fun j => nth j us 0%nat));
+             [intros j y' Hj; unfold Circ.get; apply HA, Hpos, Hj | intros j Hj k'; unfold Circ.get; apply HF, Hpos, Hj]
+           | intros y'; apply length_concat_sumu; intros j Hj; unfold Circ.get; apply HA, Hpos, Hj].
         f_equal.
         rewrite (DV_concat v (fun y' j => get (eval pre y') j)) by (intros j y' Hj; unfold Circ.get; apply HA, Hpos, Hj).
         f_equal. rewrite map_map. apply map_ext_in. intros j Hj. unfold Circ.get.
@@ -585,7 +696,7 @@ Proof.
                  = oget (option_map (fun l => entryp (map (get (eval Dp y)) l) (repeat k (length ins))) (dins m v sc t ins))).
         { intros k. rewrite (Dv_ext v _ (prodf (fsd (eval pre) sc ins (repeat k (length ins)))))
             by (intros y'; simpl; apply had_entry; exact Hne).
-          apply Dv_fsd; [apply repeat_length | intros j Hj; apply HB, Hpos, Hj | exact Hdj
+          apply Dv_fsd; [apply repeat_length | intros j Hj; apply HB, Hpos, Hj | intros j Hj; apply HF, Hpos, Hj | exact Hdj
                         | intros j Hj; apply HC, Hpos, Hj | intros j Hj d; apply HDe; [apply Hpos, Hj | exact Ht]]. }
         simpl DN. simpl node_units. fold u0.
         destruct (dins m v sc t ins) as [l|] eqn:El.
@@ -612,7 +723,7 @@ Proof.
                  = oget (option_map (fun l => entryp (map (get (eval Dp y)) l) (kdigs ls k)) (dins m v sc t ins))).
         { intros k. rewrite (Dv_ext v _ (prodf (fsd (eval pre) sc ins (kdigs ls k))))
             by (intros y'; simpl; apply kron_entry; [exact Hne | intros j Hj; apply HA, Hpos, Hj]).
-          apply Dv_fsd; [unfold ls; rewrite length_kdigs; apply map_length | intros j Hj; apply HB, Hpos, Hj | exact Hdj
+          apply Dv_fsd; [unfold ls; rewrite length_kdigs; apply map_length | intros j Hj; apply HB, Hpos, Hj | intros j Hj; apply HF, Hpos, Hj | exact Hdj
                         | intros j Hj; apply HC, Hpos, Hj | intros j Hj d; apply HDe; [apply Hpos, Hj | exact Ht]]. }
         simpl DN. simpl node_units. fold ls.
         destruct (dins m v sc t ins) as [l|] eqn:El.
@@ -632,13 +743,13 @@ Qed.
 
 
 (* ---------- the property ---------- *)
-Theorem differentiate_correct vars c : ok c -> forall y i, i < length c ->
+Theorem differentiate_correct vars c : ok c -> inputs_DF c -> forall y i, i < length c ->
   nth (cidx (length vars) i) (eval (differentiate vars c) y) [] = nth i (eval c y) []
   /\ forall t, t < length vars -> forall k,
      nth k (nth (didx (length vars) i t) (eval (differentiate vars c) y) []) 0
      = Dv (nth t vars 0%nat) (fun y' => nth k (nth i (eval c y') []) 0) y.
 Proof.
-  intros Hok y i Hi. destruct (differentiate_inv vars c Hok i Hi) as [IC ID]. split; [apply IC|].
+  intros Hok HI y i Hi. destruct (differentiate_inv vars c Hok HI i Hi) as [IC ID]. split; [apply IC|].
   intros t Ht k. rewrite ID by exact Ht. apply nth_DV_all. apply (ok_AB c Hok i Hi).
 Qed.
 
@@ -669,7 +780,7 @@ Proof.
   destruct (mem a S); [|exact IH]. constructor; [exact IH|].
   rewrite Forall_forall in *. intros x Hx. apply filter_In in Hx. apply Hf, Hx.
 Qed.
-Corollary differentiate_outputs vars c o : ok c -> o < length c ->
+Corollary differentiate_outputs vars c o : ok c -> inputs_DF c -> o < length c ->
   (forall y k,
      map (fun idx => nth k (nth idx (eval (differentiate vars c) y) []) 0) (outs vars c o)
      = map (fun v => Dv v (fun y' => nth k (nth o (eval c y') []) 0) y) (dvars vars (nth o (scopes c) []))
@@ -677,8 +788,8 @@ Corollary differentiate_outputs vars c o : ok c -> o < length c ->
   /\ (forall v, In v (dvars vars (nth o (scopes c) [])) <-> In v vars /\ In v (nth o (scopes c) []))
   /\ (StronglySorted lt vars -> StronglySorted lt (dvars vars (nth o (scopes c) []))).
 Proof.
-  intros Hok Ho. split; [|split; [intros v; apply dvars_In | apply dvars_sorted]].
-  intros y k. destruct (differentiate_correct vars c Hok y o Ho) as [HC HD].
+  intros Hok HI Ho. split; [|split; [intros v; apply dvars_In | apply dvars_sorted]].
+  intros y k. destruct (differentiate_correct vars c Hok HI y o Ho) as [HC HD].
   unfold outs, dvars. rewrite map_app. simpl. rewrite HC. f_equal.
   rewrite <- (filter_seq_nth (fun v => mem v (nth o (scopes c) [])) vars), !map_map.
   apply map_ext_in. intros t Ht. apply filter_In in Ht. destruct Ht as [Ht _]. apply in_seq in Ht.
@@ -686,6 +797,51 @@ Proof.
 Qed.
 
 End Differentiate.
+
+(* ---------- the total special case: DF := fun _ => True ---------- *)
+(* When the rules of Dv are assumed for ALL functions (the former statement of this file), every
+   function is in the class and the side conditions on the inputs disappear. *)
+Section DifferentiateTotal.
+Variable R : Type.
+Variables (rO rI : R) (radd rmul : R -> R -> R).
+Hypothesis Rth : semi_ring_theory rO rI radd rmul (@eq R).
+Variable D : Type.
+Variable Dv : nat -> (asg D -> R) -> (asg D -> R).
+Hypothesis Dv_ext  : forall v f g, (forall y, f y = g y) -> forall y, Dv v f y = Dv v g y.
+Hypothesis Dv_add  : forall v f g y, Dv v (fun y => radd (f y) (g y)) y = radd (Dv v f y) (Dv v g y).
+Hypothesis Dv_scal : forall v c f y, Dv v (fun y => rmul c (f y)) y = rmul c (Dv v f y).
+Hypothesis Dv_indep_mul : forall v S g f, dep_on R D S g -> ~ In v S ->
+  forall y, Dv v (fun y => rmul (g y) (f y)) y = rmul (g y) (Dv v f y).
+Hypothesis Dv_indep : forall v S f, dep_on R D S f -> ~ In v S -> forall y, Dv v f y = rO.
+
+Lemma inputs_DF_total c : inputs_DF R rO D (fun _ => True) c.
+Proof. intros a _ k. exact I. Qed.
+
+Theorem differentiate_correct_total vars c : ok R rO D c -> forall y i, i < length c ->
+  nth (cidx (length vars) i) (eval R rO radd rmul D (differentiate R rO D Dv vars c) y) [] = nth i (eval R rO radd rmul D c y) []
+  /\ forall t, t < length vars -> forall k,
+     nth k (nth (didx (length vars) i t) (eval R rO radd rmul D (differentiate R rO D Dv vars c) y) []) rO
+     = Dv (nth t vars 0%nat) (fun y' => nth k (nth i (eval R rO radd rmul D c y') []) rO) y.
+Proof.
+  intros Hok. apply (differentiate_correct R rO rI radd rmul Rth D (fun _ => True)); eauto using inputs_DF_total.
+Qed.
+
+Corollary differentiate_outputs_total vars c o : ok R rO D c -> o < length c ->
+  (forall y k,
+     map (fun idx => nth k (nth idx (eval R rO radd rmul D (differentiate R rO D Dv vars c) y) []) rO) (outs R D vars c o)
+     = map (fun v => Dv v (fun y' => nth k (nth o (eval R rO radd rmul D c y') []) rO) y) (dvars vars (nth o (scopes R D c) []))
+       ++ [nth k (nth o (eval R rO radd rmul D c y) []) rO])
+  /\ (forall v, In v (dvars vars (nth o (scopes R D c) [])) <-> In v vars /\ In v (nth o (scopes R D c) []))
+  /\ (StronglySorted lt vars -> StronglySorted lt (dvars vars (nth o (scopes R D c) []))).
+Proof.
+  intros Hok. apply (differentiate_outputs R rO rI radd rmul Rth D (fun _ => True)); eauto using inputs_DF_total.
+Qed.
+End DifferentiateTotal.
+
+Check differentiate_correct_total.
+Print Assumptions differentiate_correct_total.
+Check differentiate_outputs_total.
+Print Assumptions differentiate_outputs_total.
 Check differentiate_correct.
 Print Assumptions differentiate_correct.
 Check differentiate_outputs.
